@@ -434,6 +434,13 @@ Inductive creach (init : conf) : list nat -> conf -> Prop :=
 | cr_nil : creach init [] init
 | cr_snoc sched i c c' : creach init sched c -> cstep c i c' -> creach init (sched ++ [i]) c'.
 
+Lemma creach_cons init i c1 sched c : cstep init i c1 -> creach c1 sched c -> creach init (i :: sched) c.
+Proof.
+  intros S R. induction R as [|sched j a b R IH S'].
+  - change [i] with ([] ++ [i]). eapply cr_snoc; [apply cr_nil|exact S].
+  - change (i :: sched ++ [j]) with ((i :: sched) ++ [j]). eapply cr_snoc; eauto.
+Qed.
+
 Definition cinit (progs : nat -> list bop) : conf := mkConf empty (fun i => (Idle, progs i)) [].
 Definition finished (c : conf) : Prop := forall i, thr c i = (Idle, []).
 
@@ -681,6 +688,41 @@ Qed.
 Lemma cinv_reach progs sched c : creach (cinit progs) sched c -> cinv progs c.
 Proof.
   intros R. induction R as [|sched i c c' R IH S]; [apply cinv_init|]. eapply cinv_step; eauto.
+Qed.
+
+(* The access-by-access model itself has no data race: the shared accesses a
+   goroutine is about to perform (variables as numbered in Gen_Locks: 0 = keys,
+   1 = blks) never conflict with those of another goroutine. *)
+Definition v_keys : N := 0.
+Definition v_blks : N := 1.
+Definition next_acc (p : pc) : list access :=
+  match p with
+  | PutL _ _ => [mkAcc v_blks false]
+  | PutC _ _ => [mkAcc v_blks true]
+  | PutM _ _ => [mkAcc v_keys false; mkAcc v_keys true]
+  | GetL _ => [mkAcc v_blks false]
+  | IterL => [mkAcc v_keys false]
+  | IterK _ => [mkAcc v_blks false]
+  | _ => []
+  end.
+Definition crace (c : conf) : Prop :=
+  exists i j a b, i <> j /\ In a (next_acc (pcs c i)) /\ In b (next_acc (pcs c j)) /\ conflict a b.
+
+Lemma writer_mode p a : In a (next_acc p) -> awrite a = true -> mode_of p = MW.
+Proof.
+  destruct p; cbn; intros H W; try reflexivity; try tauto;
+    repeat (destruct H as [H|H]; [subst a; cbn in W; try discriminate|]); try tauto.
+Qed.
+Lemma idle_no_acc p a : In a (next_acc p) -> mode_of p <> MNone.
+Proof. destruct p; cbn; intros H; try discriminate; tauto. Qed.
+
+Theorem model_race_free progs sched c : creach (cinit progs) sched c -> ~ crace c.
+Proof.
+  intros R (i & j & a & b & Nij & Ha & Hb & _ & [W|W]).
+  - pose proof (i_mutex _ _ (cinv_reach _ _ _ R) i j Nij (writer_mode _ _ Ha W)) as M.
+    exact (idle_no_acc _ _ Hb M).
+  - pose proof (i_mutex _ _ (cinv_reach _ _ _ R) j i (not_eq_sym Nij) (writer_mode _ _ Hb W)) as M.
+    exact (idle_no_acc _ _ Ha M).
 Qed.
 
 (* C17 (functional part).  Any number of goroutines, any programs, any schedule:
